@@ -47,6 +47,10 @@ class C11(framework.PropertyCheck):
                         'qq': (f'`{a}', f'(quasiquote {a})'), 'unq': (f'`(x ,{a})', None), 'unqs': (f'`(x ,@{a})', None),
                         'brackets': (f'({a} {b})', f'[{a} {b}]', '{' + f'{a} {b}' + '}')}[k]
                 yield {'k': 'short', 'kind': k, 'texts': [t for t in pair if t is not None]}
+            elif i % 500 == 13:
+                # the other writer of WAL text: wawk -o (statements far longer than a text line, blanks inside strings)
+                words = ' '.join(rng.choice(['alpha', 'beta', 'gamma', 'delta', 'x', 'yz']) for _ in range(rng.randint(25, 45)))
+                yield {'k': 'wawko', 'words': words, 'n': rng.randint(1, 3)}
             elif i % 50 == 7:
                 # reading is a function of the text alone: the same text reads the same after it has been evaluated
                 yield {'k': 'reread', 'src': rng.choice(['(when ready (inc n))', '(unless (> n 2) (set! n 5))', '(for/list [i (range 2)] (inc n))',
@@ -81,7 +85,7 @@ class C11(framework.PropertyCheck):
         return x if k in ('s', 'i') else Symbol(x) if k == 'y' else WList([self.value(e) for e in x])
 
     def steps(self, case):
-        if case['k'] == 'reread':
+        if case['k'] in ('reread', 'wawko'):
             return None
         if case['k'] == 'val':
             from wal.util import wal_str
@@ -95,7 +99,44 @@ class C11(framework.PropertyCheck):
             return st
         return [('read', t) for t in case['texts']]
 
+    def wawko(self, case):
+        import os
+        import subprocess
+        import sys
+        from . import impl, session
+        from wal.reader import read_wal_sexprs
+        src = 'BEGIN: {\n' + '\n'.join(f'  print("{case["words"]} {k}", {k});' for k in range(case['n'])) + '\n}\ntop.clk: {\n  x = x + 1;\n}\n'
+        wd = impl.workdir()
+        pp, tp, op = (os.path.join(wd, n) for n in ('p11.wawk', 't11.vcd', 'o11.wal'))
+        with open(pp, 'w') as f:
+            f.write(src)
+        with open(tp, 'w') as f:
+            f.write('$scope module top $end $var wire 1 ! clk $end $upscope $end $enddefinitions $end #0 0! #1 1!\n')
+        env = dict(os.environ, PYTHONPATH=impl.REPO + os.pathsep + os.environ.get('PYTHONPATH', ''))
+        try:
+            p = subprocess.run([sys.executable, '-c', 'import sys; from wawk.wawk import run; sys.argv[0] = "wawk"; sys.exit(run())', pp, tp, '-o', op],
+                               stdin=subprocess.DEVNULL, stdout=subprocess.PIPE, stderr=subprocess.PIPE, env=env, timeout=120, cwd=wd)
+            if p.returncode != 0 or not os.path.exists(op):
+                return {'what': 'wawk -o did not write the program', 'rc': p.returncode, 'stderr': p.stderr.decode('utf-8', 'replace')[-300:]}
+            text = open(op).read()
+            want = wire.canon(session.wawk_emit(src)[0])
+            try:
+                got = wire.canon(list(read_wal_sexprs(text)))
+            except BaseException as e:  # noqa: BLE001
+                return {'what': 'the text written by wawk -o does not read back', 'error': type(e).__name__, 'text': text[:400]}
+            if _nokind(got) != _nokind(want):
+                return {'what': 'the text written by wawk -o reads back as a different program', 'text': text[:400]}
+            return None
+        except subprocess.TimeoutExpired:
+            return None
+        finally:
+            for q in (pp, tp, op):
+                if os.path.exists(q):
+                    os.unlink(q)
+
     def oracle(self, case, iobs):
+        if case['k'] == 'wawko':
+            return self.wawko(case)
         if case['k'] == 'reread':
             from . import impl
             first = read_one(case['src'])
@@ -140,12 +181,16 @@ class C11(framework.PropertyCheck):
         return None
 
     def nontrivial(self, case, iobs):
-        if case['k'] in ('short', 'val', 'reread'):
+        if case['k'] in ('short', 'val', 'reread', 'wawko'):
             return True
         return iobs is not None and len(iobs) > 1 and iobs[1][0] == 'ok' and iobs[1][1] != case['src']
 
     def classify(self, case):
         return case['k'] + (':' + case['kind'] if 'kind' in case else '')
+
+
+def _nokind(c):
+    return ('L', tuple(_nokind(x) for x in c[2])) if c[0] == 'L' else c
 
 
 CHECK = C11()
